@@ -46,6 +46,20 @@ func ParseChunkSize(r network.Reader) (int, error) {
 		if c == ' ' {
 			continue
 		}
+		// Skip the chunk extension (RFC 7230, Section 4.1.1): unrecognized
+		// extensions must be ignored. Newlines are not allowed inside it.
+		if c == ';' {
+			for c != '\r' {
+				if c, err = r.ReadByte(); err != nil {
+					return -1, errors.NewPublic(fmt.Sprintf("cannot read '\r' char at the end of chunk size: %s", err))
+				}
+				if c == '\n' {
+					return -1, errors.NewPublic(
+						fmt.Sprintf("unexpected char %q in chunk extension. Expected %q", c, '\r'),
+					)
+				}
+			}
+		}
 		if c != '\r' {
 			return -1, errors.NewPublic(
 				fmt.Sprintf("unexpected char %q at the end of chunk size. Expected %q", c, '\r'),
